@@ -1,55 +1,680 @@
+//! C10 code -> spec driver: exercises zcash_address / f4jumble on seeded values, mutated strings and
+//! byte-level mutated unified containers, and writes one ndjson record per observation for
+//! spec/Address/Trace_Address.tla (record formats are documented there).
+//!
+//!   c10_driver <out.ndjson> <n_values_per_net> <n_containers> <n_fuzz> <big: 0|1>
+//!
+//! The abstraction of every input is made by the harness' OWN code (c10_common.rs: constants, raw
+//! decoder, F4Jumble reference), never by the crates under test.  All randomness derives from
+//! VERIF_SEED; the same arguments and seed give the same trace (that is what a replay relies on).
+//! stdout: one JSON summary object (last line).
 #[path = "../c10_common.rs"]
 mod common;
+
 use common::*;
-use h_core::util::{guarded, quiet_panics};
+use h_core::util::{NdjsonWriter, seed_from_env};
+use proptest::strategy::{Strategy, ValueTree};
+use proptest::test_runner::{Config, RngAlgorithm, TestRng, TestRunner};
+use rand::seq::SliceRandom;
+use rand::{Rng, RngCore};
+use rand_chacha::ChaCha8Rng;
+use serde_json::{Value, json};
 use zcash_address::unified::{self, Encoding};
-use zcash_address::ZcashAddress;
-use zcash_protocol::consensus::NetworkType;
+use zcash_address::{ConversionError, ZcashAddress};
+
+fn note(s: &str) -> Value {
+    // the concrete string, for the human reading a report (TLC ignores it): ASCII only, Rust escapes for
+    // everything else (so that no tool downstream sees a line separator), long ones cut
+    let e: String = s.chars().take(700).flat_map(|c| c.escape_default()).collect();
+    if s.chars().count() <= 700 { json!(e) } else { json!(format!("{}...({} chars)", e, s.chars().count())) }
+}
+
+// ------------------------------------------------------------------------------------------------
+// observing
+
+struct Seen {
+    out: &'static str,
+    kind: &'static str,
+    net: &'static str,
+    data: Vec<u8>,
+    items: Option<Vec<RawItem>>,
+    reenc: String,
+}
+
+fn parse(s: &str) -> Seen {
+    match cut(|| ZcashAddress::try_from_encoded(s).map(|a| (observe(&a), a.encode()))) {
+        Err(_) => Seen { out: "panic", kind: "-", net: "-", data: vec![], items: None, reenc: String::new() },
+        Ok(Err(_)) => Seen { out: "reject", kind: "-", net: "-", data: vec![], items: None, reenc: String::new() },
+        Ok(Ok((o, reenc))) => Seen { out: "accept", kind: o.kind, net: o.net, items: o.ua.as_ref().map(ua_items), data: o.data, reenc },
+    }
+}
+
+// ------------------------------------------------------------------------------------------------
+// A. values from the crate's proptest strategies:  value -> encode -> parse -> encode
+
+struct ValueStr {
+    kind: &'static str,
+    net: &'static str,
+    string: String,
+    data: Vec<u8>,
+    items: Option<Vec<RawItem>>,
+}
+
+fn values(seed: u64, n_per_net: usize, w: &mut NdjsonWriter, rng: &mut ChaCha8Rng) -> Vec<ValueStr> {
+    let mut s32 = [0u8; 32];
+    case_rng(seed, "proptest").fill_bytes(&mut s32);
+    let mut runner = TestRunner::new_with_rng(Config::default(), TestRng::from_seed(RngAlgorithm::ChaCha, &s32));
+    let mut out = vec![];
+    for net in NETS {
+        let strat = zcash_address::testing::arb_address(net_type(net));
+        for _ in 0..n_per_net {
+            let v = strat.new_tree(&mut runner).expect("harness: proptest value").current();
+            let o = observe(&v);
+            let items = o.ua.as_ref().map(ua_items);
+            let enc = cut(|| v.encode());
+            let (rec, string) = match enc {
+                Err(_) => (json!({"op": "rt", "kind": o.kind, "net": o.net, "out": "panic", "okind": "-", "onet": "-", "same": false, "reenc": false, "x": ""}), None),
+                Ok(s) => {
+                    // the string must be the specified encoding (own constants, own raw encoding, reference jumble)
+                    let own = match &items {
+                        Some(its) => {
+                            let hrp = hrp_of("ua", o.net);
+                            container_string(hrp, &raw_encode(its, &padding_for(hrp)), "bech32m", rng).expect("harness: jumble domain")
+                        }
+                        None => match o.kind {
+                            "sprout" | "p2pkh" | "p2sh" => b58check_encode(&b58_prefix(o.kind, o.net), &o.data),
+                            "sapling" => bech_encode("bech32", hrp_of("sapling", o.net), &o.data, rng),
+                            _ => bech_encode("bech32m", hrp_of("tex", o.net), &o.data, rng),
+                        },
+                    };
+                    let p = parse(&s);
+                    let same = p.out == "accept" && p.data == o.data && p.items == items && s == own;
+                    let back_eq = cut(|| ZcashAddress::try_from_encoded(&s).ok() == Some(v.clone())).unwrap_or(false);
+                    // value equality is promised except for the shared-prefix case, where kind / net are judged by TLC
+                    let shared = o.net == "regtest" && matches!(o.kind, "sprout" | "p2pkh" | "p2sh");
+                    let same = same && (shared || back_eq);
+                    let out = if p.out == "accept" { "ok" } else { p.out };
+                    (json!({"op": "rt", "kind": o.kind, "net": o.net, "out": out, "okind": p.kind, "onet": p.net,
+                            "same": same, "reenc": p.reenc == s, "x": note(&s)}), Some(s))
+                }
+            };
+            w.emit(&rec);
+            if let Some(string) = string {
+                out.push(ValueStr { kind: o.kind, net: o.net, string, data: o.data.clone(), items });
+            }
+        }
+    }
+    out
+}
+
+// ------------------------------------------------------------------------------------------------
+// B. strings of a known class, derived from those values
+
+fn abstract_of(kind: &str, net: &str) -> Value {
+    match kind {
+        "unified" => json!({"form": "bech", "variant": "bech32m", "hrp": {"fam": "ua", "net": net}, "case": "lower", "payload": "ua_wf", "ws": "none"}),
+        "sapling" => json!({"form": "bech", "variant": "bech32", "hrp": {"fam": "sapling", "net": net}, "case": "lower", "payload": "raw43", "ws": "none"}),
+        "tex" => json!({"form": "bech", "variant": "bech32m", "hrp": {"fam": "tex", "net": net}, "case": "lower", "payload": "raw20", "ws": "none"}),
+        k => json!({"form": "b58", "ck": "ok", "prefix": {"kind": k, "net": if net == "regtest" { "test" } else { net }},
+                    "plen": if k == "sprout" { "64" } else { "20" }, "ws": "none"}),
+    }
+}
+
+fn bech_payload(v: &ValueStr, hrp_for_padding: &str) -> Vec<u8> {
+    match &v.items {
+        Some(its) => ref_f4jumble(&raw_encode(its, &padding_for(hrp_for_padding))).expect("harness: jumble domain"),
+        None => v.data.clone(),
+    }
+}
+
+fn emit_str(w: &mut NdjsonWriter, abs: Value, x: &str, trimmed: &str, v: &ValueStr) {
+    let p = parse(x);
+    let data = p.out == "accept" && p.data == v.data && p.items == v.items;
+    w.emit(&json!({"op": "str", "s": abs, "out": p.out, "okind": p.kind, "onet": p.net, "canon": p.out == "accept" && p.reenc == trimmed,
+                   "data": data, "x": note(x)}));
+}
+
+fn known_class_strings(vals: &[ValueStr], w: &mut NdjsonWriter, rng: &mut ChaCha8Rng) {
+    for v in vals {
+        let base = abstract_of(v.kind, v.net);
+        let is_bech = base["form"] == "bech";
+        let fam = match v.kind {
+            "unified" => "ua",
+            "sapling" => "sapling",
+            "tex" => "tex",
+            _ => "",
+        };
+        // whitespace around / inside
+        let ws = ["lead", "trail", "both", "inner"][rng.gen_range(0..4)];
+        let mut a = base.clone();
+        a["ws"] = json!(ws);
+        let x = match ws {
+            "lead" => format!("{}{}", rand_ws(rng), v.string),
+            "trail" => format!("{}{}", v.string, rand_ws(rng)),
+            "both" => format!("{}{}{}", rand_ws(rng), v.string, rand_ws(rng)),
+            _ => {
+                let pos = rng.gen_range(1..v.string.len());
+                format!("{}{}{}", &v.string[..pos], rand_ws(rng), &v.string[pos..])
+            }
+        };
+        let trimmed = if ws == "inner" { x.clone() } else { v.string.clone() };
+        emit_str(w, a, &x, &trimmed, v);
+        if is_bech {
+            let own_hrp = hrp_of(fam, v.net);
+            // checksum of the other Bech32 variant / a broken checksum
+            let variant = if rng.gen_bool(0.7) { if base["variant"] == "bech32m" { "bech32" } else { "bech32m" } } else { "bad" };
+            let mut a = base.clone();
+            a["variant"] = json!(variant);
+            let x = bech_encode(variant, own_hrp, &bech_payload(v, own_hrp), rng);
+            emit_str(w, a, &x, &x, v);
+            // upper / mixed case
+            let mut a = base.clone();
+            let x = if rng.gen_bool(0.5) {
+                a["case"] = json!("upper");
+                v.string.to_uppercase()
+            } else {
+                a["case"] = json!("mixed");
+                let chars: Vec<char> = v.string.chars().collect();
+                let letters: Vec<usize> = (0..chars.len()).filter(|i| chars[*i].is_ascii_lowercase()).collect();
+                let pos = letters[rng.gen_range(0..letters.len())];
+                chars.iter().enumerate().map(|(i, c)| if i == pos { c.to_ascii_uppercase() } else { *c }).collect()
+            };
+            emit_str(w, a, &x, &x, v);
+            // the HRP of another network with a recomputed checksum
+            let other = *NETS.iter().filter(|n| **n != v.net).collect::<Vec<_>>()[rng.gen_range(0..2)];
+            let mut a = base.clone();
+            a["hrp"]["net"] = json!(other);
+            let variant = base["variant"].as_str().unwrap();
+            if v.kind == "unified" {
+                // the payload keeps the padding of the original network: "prefix swapped"
+                a["payload"] = json!("ua_othernet");
+                let x = bech_encode(variant, hrp_of(fam, other), &bech_payload(v, own_hrp), rng);
+                emit_str(w, a, &x, &x, v);
+            } else {
+                let x = bech_encode(variant, hrp_of(fam, other), &v.data, rng);
+                emit_str(w, a, &x, &x, v);
+            }
+            // a foreign / key HRP
+            let pick = rng.gen_range(0..4);
+            let foreign = if pick == 3 { longer_hrp(hrp_of("ua", v.net), rng) } else { foreign_hrp(rng) };
+            let (ofam, hrp) = match pick {
+                0 => ("ufvk", hrp_of("ufvk", v.net)),
+                1 => ("uivk", hrp_of("uivk", v.net)),
+                2 => ("other", &foreign[..]),
+                _ => ("uaLonger", &foreign[..]),
+            };
+            let mut a = base.clone();
+            a["hrp"] = if ofam == "other" { json!({"fam": "other", "net": "main"}) } else { json!({"fam": ofam, "net": v.net}) };
+            let x = bech_encode(variant, hrp, &bech_payload(v, hrp), rng);
+            emit_str(w, a, &x, &x, v);
+        } else {
+            // the lead bytes of the other network / another kind, checksum recomputed
+            let kinds = ["sprout", "p2pkh", "p2sh"];
+            let (ok, on) = loop {
+                let k = kinds[rng.gen_range(0..3)];
+                let n = ["main", "test"][rng.gen_range(0..2)];
+                if (k, n) != (v.kind, if v.net == "regtest" { "test" } else { v.net }) {
+                    break (k, n);
+                }
+            };
+            let mut a = base.clone();
+            a["prefix"] = json!({"kind": ok, "net": on});
+            let x = b58check_encode(&b58_prefix(ok, on), &v.data);
+            emit_str(w, a, &x, &x, v);
+            // one character changed
+            let mut a = base.clone();
+            a["ck"] = json!("bad");
+            const ALPHA: &[u8] = b"123456789ABCDEFGHJKLMNPQRSTUVWXYZabcdefghijkmnopqrstuvwxyz";
+            let x = loop {
+                let mut chars: Vec<char> = v.string.chars().collect();
+                let pos = rng.gen_range(0..chars.len());
+                let c = ALPHA[rng.gen_range(0..ALPHA.len())] as char;
+                if c == chars[pos] {
+                    continue;
+                }
+                chars[pos] = c;
+                let cand: String = chars.into_iter().collect();
+                if bs58::decode(&cand).with_check(None).into_vec().is_err() {
+                    break cand;
+                }
+            };
+            emit_str(w, a, &x, &x, v);
+        }
+    }
+}
+
+// ------------------------------------------------------------------------------------------------
+// C. strings of no known class
+
+fn fuzz(vals: &[ValueStr], n: usize, w: &mut NdjsonWriter, rng: &mut ChaCha8Rng) -> (usize, usize) {
+    let mut accepted = 0;
+    let mut done = 0;
+    if vals.is_empty() {
+        return (0, 0);
+    }
+    let pool: Vec<char> = "qpzry9x8gf2tvdw0s3jn54khce6mua7l1bio BIO\t\n-_=+:/?#%\u{e9}\u{3000}\u{1F980}ABCDEFGHJKLMNPQRSTUVWXYZ".chars().collect();
+    while done < n {
+        let v = &vals[rng.gen_range(0..vals.len())];
+        let mut chars: Vec<char> = v.string.chars().collect();
+        let x: String = match rng.gen_range(0..9) {
+            0 => {
+                let pos = rng.gen_range(0..chars.len());
+                chars[pos] = pool[rng.gen_range(0..pool.len())];
+                chars.into_iter().collect()
+            }
+            1 => {
+                let pos = rng.gen_range(0..chars.len());
+                chars.remove(pos);
+                chars.into_iter().collect()
+            }
+            2 => {
+                let pos = rng.gen_range(0..=chars.len());
+                chars.insert(pos, pool[rng.gen_range(0..pool.len())]);
+                chars.into_iter().collect()
+            }
+            3 => {
+                let pos = rng.gen_range(0..chars.len() - 1);
+                chars.swap(pos, pos + 1);
+                chars.into_iter().collect()
+            }
+            4 => chars[..rng.gen_range(0..chars.len())].iter().collect(),
+            5 => {
+                // a structurally valid Base58Check string with arbitrary lead bytes / length
+                let known = [b58_prefix("p2pkh", "main"), b58_prefix("p2sh", "main"), b58_prefix("sprout", "main"),
+                             b58_prefix("p2pkh", "test"), b58_prefix("p2sh", "test"), b58_prefix("sprout", "test")];
+                let mut p = known[rng.gen_range(0..6)].to_vec();
+                if rng.gen_bool(0.3) {
+                    p[1] = p[1].wrapping_add(rng.gen_range(0..3));
+                }
+                let n = *[0usize, 19, 20, 21, 43, 63, 64, 65].choose(rng).unwrap();
+                b58check_encode(&p, &rand_bytes(rng, n))
+            }
+            6 => {
+                // a valid Bech32 / Bech32m string with a Zcash HRP and an arbitrary payload length
+                let fam = ["sapling", "tex", "ua", "ufvk"][rng.gen_range(0..4)];
+                let net = NETS[rng.gen_range(0..3)];
+                let n = *[0usize, 19, 20, 21, 42, 43, 44, 48, 64, 80].choose(rng).unwrap();
+                bech_encode(["bech32", "bech32m"][rng.gen_range(0..2)], hrp_of(fam, net), &rand_bytes(rng, n), rng)
+            }
+            7 => format!("{}{}", v.string, v.string),
+            _ => {
+                // whitespace variants of an otherwise valid string (accepted: exercises canonicity)
+                format!("{}{}{}", if rng.gen_bool(0.5) { rand_ws(rng) } else { String::new() }, v.string, if rng.gen_bool(0.5) { rand_ws(rng) } else { String::new() })
+            }
+        };
+        let p = parse(&x);
+        if p.out == "accept" {
+            accepted += 1;
+        }
+        w.emit(&json!({"op": "fuzz", "out": p.out, "canon": p.out == "accept" && p.reenc == x.trim(), "x": note(&x)}));
+        done += 1;
+    }
+    (done, accepted)
+}
+
+// ------------------------------------------------------------------------------------------------
+// D. unified containers mutated at the byte level, abstracted by the harness' own decoder
+
+fn kind_of_hrp(hrp: &str) -> (&'static str, &'static str) {
+    for kind in ["addr", "fvk", "ivk"] {
+        for net in NETS {
+            if hrp_of(family_of_kind(kind), net) == hrp {
+                return (kind, net);
+            }
+        }
+    }
+    ("none", "-")
+}
+
+fn random_wf(kind: &str, rng: &mut ChaCha8Rng) -> Vec<RawItem> {
+    // an ascending set of typecodes with at least one non-transparent one, at most one transparent
+    loop {
+        let mut tcs: Vec<u64> = vec![];
+        match rng.gen_range(0..3) {
+            0 => tcs.push(0),
+            1 if kind == "addr" => tcs.push(1),
+            _ => {}
+        }
+        for tc in [2u64, 3] {
+            if rng.gen_bool(0.5) {
+                tcs.push(tc);
+            }
+        }
+        for _ in 0..rng.gen_range(0..3) {
+            tcs.push(*[4u64, 5, 252, 253, 0xFFFF, 0x10000, MAX_TYPECODE, rng.gen_range(4..=MAX_TYPECODE)].choose(rng).unwrap());
+        }
+        tcs.sort();
+        tcs.dedup();
+        if tcs.iter().all(|t| *t < 2) {
+            continue;
+        }
+        return tcs
+            .into_iter()
+            .map(|tc| {
+                let n = known_len(kind, tc).unwrap_or_else(|| *[0usize, 1, 32, 40, 64, 100, 252, 253, 300].choose(rng).unwrap());
+                RawItem { typecode: tc, data: rand_bytes(rng, n) }
+            })
+            .collect();
+    }
+}
+
+fn encode_items_with(items: &[RawItem], wide_at: Option<(usize, bool, usize)>) -> Vec<u8> {
+    // wide_at = (item index, true: the typecode / false: the length, width): a non-canonical CompactSize
+    let mut out = vec![];
+    for (i, it) in items.iter().enumerate() {
+        match wide_at {
+            Some((j, true, wd)) if j == i => cs_write_wide(&mut out, it.typecode, wd),
+            _ => cs_write(&mut out, it.typecode),
+        }
+        match wide_at {
+            Some((j, false, wd)) if j == i => cs_write_wide(&mut out, it.data.len() as u64, wd),
+            _ => cs_write(&mut out, it.data.len() as u64),
+        }
+        out.extend_from_slice(&it.data);
+    }
+    out
+}
+
+fn emit_uc(w: &mut NdjsonWriter, hrp: &str, raw: &[u8], rng: &mut ChaCha8Rng, counts: &mut (usize, usize)) {
+    let (hk, hnet) = kind_of_hrp(hrp);
+    let own = raw_decode(raw);
+    let items: Vec<Value> = own
+        .items
+        .iter()
+        .map(|it| {
+            let class = tc_class(it.typecode);
+            let l = match class {
+                "p2pkh" | "p2sh" | "sapling" | "orchard" => hk != "none" && known_len(hk, it.typecode) == Some(it.data.len()),
+                _ => true,
+            };
+            json!({"n": it.typecode.min(MAX_TYPECODE + 1), "l": l})
+        })
+        .collect();
+    let padding = if own.padding == padding_for(hrp).to_vec() { "hrp" } else { "wrong" };
+    let s = match ref_f4jumble(raw) {
+        Some(j) => bech_encode("bech32m", hrp, &j, rng),
+        None => bech_encode("bech32m", hrp, raw, rng),
+    };
+    for dec in ["addr", "fvk", "ivk", "zaddr"] {
+        let r = cut(|| match dec {
+            "addr" => unified::Address::decode(&s).ok().map(|(n, v)| (net_name(n), ua_items(&v), v.encode(&n))),
+            "fvk" => unified::Ufvk::decode(&s).ok().map(|(n, v)| (net_name(n), ufvk_items(&v), v.encode(&n))),
+            "ivk" => unified::Uivk::decode(&s).ok().map(|(n, v)| (net_name(n), uivk_items(&v), v.encode(&n))),
+            _ => ZcashAddress::try_from_encoded(&s).ok().map(|a| {
+                let o = observe(&a);
+                (o.net, o.ua.as_ref().map(ua_items).unwrap_or_default(), a.encode())
+            }),
+        });
+        let (out, canon, same, netok) = match r {
+            Err(_) => ("panic", false, false, false),
+            Ok(None) => ("reject", false, false, false),
+            Ok(Some((net, its, reenc))) => ("accept", reenc == s, its == own.items, net == hnet),
+        };
+        counts.0 += 1;
+        if out == "accept" {
+            counts.1 += 1;
+        }
+        w.emit(&json!({"op": "uc", "dec": dec, "hk": hk, "items": items, "padding": padding, "size": own.size, "struct": own.structure,
+                       "out": out, "canon": canon, "same": same, "netok": netok, "x": note(&s)}));
+    }
+}
+
+fn containers(n: usize, big: bool, w: &mut NdjsonWriter, rng: &mut ChaCha8Rng) -> (usize, usize) {
+    let mut counts = (0usize, 0usize);
+    for _ in 0..n {
+        let kind = ["addr", "addr", "fvk", "ivk"][rng.gen_range(0..4)];
+        let net = NETS[rng.gen_range(0..3)];
+        let mut hrp = hrp_of(family_of_kind(kind), net);
+        #[allow(unused_assignments)]
+        let mut foreign = String::new();
+        let mut items = random_wf(kind, rng);
+        let mut pad = padding_for(hrp).to_vec();
+        let mut wide = None;
+        let mut cut_tail = 0usize;
+        let mut garbage: Vec<u8> = vec![];
+        for _ in 0..[0usize, 1, 1, 1, 2][rng.gen_range(0..5)] {
+            match rng.gen_range(0..14) {
+                0 if items.len() >= 2 => {
+                    let i = rng.gen_range(0..items.len() - 1);
+                    items.swap(i, i + 1);
+                }
+                1 if items.len() >= 2 => items.shuffle(rng),
+                2 if !items.is_empty() => {
+                    let i = rng.gen_range(0..items.len());
+                    let mut d = items[i].clone();
+                    if rng.gen_bool(0.5) {
+                        d.data = rand_bytes(rng, d.data.len());
+                    }
+                    let at = if rng.gen_bool(0.6) { i + 1 } else { rng.gen_range(0..=items.len()) };
+                    items.insert(at, d);
+                }
+                3 if !items.is_empty() => {
+                    let i = rng.gen_range(0..items.len());
+                    items.remove(i);
+                }
+                4 => {
+                    // add the other transparent item in its place (or out of place)
+                    let tc = if items.iter().any(|i| i.typecode == 0) { 1 } else { 0 };
+                    let n = known_len(kind, tc).unwrap_or(20);
+                    let it = RawItem { typecode: tc, data: rand_bytes(rng, n) };
+                    if rng.gen_bool(0.7) {
+                        items.push(it);
+                        items.sort_by_key(|i| i.typecode);
+                    } else {
+                        items.push(it);
+                    }
+                }
+                5 if !items.is_empty() => {
+                    let i = rng.gen_range(0..items.len());
+                    items[i].typecode = *[0u64, 1, 2, 3, 4, 252, 253, 0xFFFF, 0x10000, MAX_TYPECODE, MAX_TYPECODE + 1, 0xFFFF_FFFF, 0x1_0000_0000, u64::MAX,
+                                          items[i].typecode + 1, items[i].typecode.saturating_sub(1)]
+                        .choose(rng)
+                        .unwrap();
+                }
+                6 if !items.is_empty() => {
+                    let i = rng.gen_range(0..items.len());
+                    let n = items[i].data.len();
+                    let n2 = *[n + 1, n.saturating_sub(1), 0, 2 * n, 20, 43, 64, 65, 96, 128].choose(rng).unwrap();
+                    items[i].data = rand_bytes(rng, n2);
+                }
+                7 => {
+                    let i = rng.gen_range(0..16);
+                    pad[i] ^= 1 << rng.gen_range(0..8);
+                }
+                8 => {
+                    // padding / HRP of another network or kind
+                    let k2 = ["addr", "fvk", "ivk"][rng.gen_range(0..3)];
+                    let n2 = NETS[rng.gen_range(0..3)];
+                    if rng.gen_bool(0.5) {
+                        pad = padding_for(hrp_of(family_of_kind(k2), n2)).to_vec();
+                    } else {
+                        hrp = hrp_of(family_of_kind(k2), n2);
+                    }
+                }
+                9 => cut_tail = rng.gen_range(1..6),
+                10 => {
+                    let k = rng.gen_range(1..4);
+                    garbage = rand_bytes(rng, k);
+                }
+                11 if !items.is_empty() => {
+                    let i = rng.gen_range(0..items.len());
+                    let on_tc = rng.gen_bool(0.5);
+                    let v = if on_tc { items[i].typecode } else { items[i].data.len() as u64 };
+                    let width = if v < 253 { [3usize, 5, 9][rng.gen_range(0..3)] } else if v <= 0xFFFF { [5usize, 9][rng.gen_range(0..2)] } else { 9 };
+                    if v <= 0xFFFF_FFFF || width == 9 {
+                        wide = Some((i, on_tc, width));
+                    }
+                }
+                12 => {
+                    // a foreign HRP, or this HRP with further characters and the padding to match
+                    if rng.gen_bool(0.5) {
+                        foreign = foreign_hrp(rng);
+                    } else {
+                        foreign = longer_hrp(hrp_of(family_of_kind(kind), net), rng);
+                        pad = padding_for(&foreign).to_vec();
+                    }
+                    hrp = &foreign;
+                }
+                _ => {}
+            }
+        }
+        let mut body = encode_items_with(&items, wide);
+        body.truncate(body.len().saturating_sub(cut_tail));
+        body.extend_from_slice(&garbage);
+        body.extend_from_slice(&pad);
+        emit_uc(w, hrp, &body, rng, &mut counts);
+    }
+    // sizes around the ends of the jumble domain: one Sapling/Orchard-free container made of unknown items
+    let mut sizes: Vec<usize> = vec![16, 18, 40, 46, 47, 48, 49, 50, 64, 127, 128, 129];
+    if big {
+        sizes.extend_from_slice(&[2_621_469, 2_621_476, 2_621_529, JUMBLE_MAX - 1, JUMBLE_MAX, JUMBLE_MAX + 1]);
+    } else {
+        sizes.extend_from_slice(&[70_000]);
+    }
+    for size in sizes {
+        let pick = ["addr", "fvk", "ivk"][rng.gen_range(0..3)];
+        for kind in ["addr", "fvk", "ivk"] {
+            if size > 100_000 && kind != pick && size != JUMBLE_MAX {
+                continue; // the multi-megabyte sizes: every kind at the maximum, one kind elsewhere
+            }
+            let net = NETS[rng.gen_range(0..3)];
+            let hrp = hrp_of(family_of_kind(kind), net);
+            // typecode (3 bytes: 0xFFFF) + length + data + padding = size
+            let tc = 0xFFFFu64;
+            let avail = size.saturating_sub(PADDING_LEN + 3);
+            let mut body = vec![];
+            if size >= PADDING_LEN + 4 {
+                let mut n = avail;
+                loop {
+                    let mut l = vec![];
+                    cs_write(&mut l, n as u64);
+                    if l.len() + n == avail || n == 0 {
+                        break;
+                    }
+                    n -= 1;
+                }
+                cs_write(&mut body, tc);
+                cs_write(&mut body, n as u64);
+                body.extend_from_slice(&rand_bytes(rng, n));
+            }
+            while body.len() + PADDING_LEN < size {
+                body.push(0); // (cannot hit exactly with one item: a one-byte filler, parsed as a truncated item)
+            }
+            body.extend_from_slice(&padding_for(hrp));
+            emit_uc(w, hrp, &body, rng, &mut counts);
+        }
+    }
+    counts
+}
+
+// ------------------------------------------------------------------------------------------------
+// E. F4Jumble against the reference construction
+
+fn jumbles(big: bool, w: &mut NdjsonWriter, rng: &mut ChaCha8Rng) -> usize {
+    let mut lens: Vec<usize> = (0..=8).collect();
+    lens.extend(40..=330);
+    for k in 6..=40usize {
+        lens.extend_from_slice(&[64 * k - 1, 64 * k, 64 * k + 1]);
+    }
+    lens.extend_from_slice(&[16383 + 64, 16384 + 64, 16385 + 64, 16384 + 128 + 1, 65536, 100_000]);
+    if big {
+        lens.extend_from_slice(&[1 << 20, 2_621_476, JUMBLE_MAX - 64, JUMBLE_MAX - 1, JUMBLE_MAX, JUMBLE_MAX + 1, JUMBLE_MAX + 64, 5_000_000]);
+    } else {
+        lens.extend_from_slice(&[JUMBLE_MAX, JUMBLE_MAX + 1]);
+    }
+    for _ in 0..40 {
+        lens.push(rng.gen_range(48..5000));
+    }
+    let mut n_rec = 0;
+    for n in lens {
+        let x = rand_bytes(rng, n);
+        let r = cut(|| {
+            let fwd = f4jumble::f4jumble(&x);
+            let bwd = f4jumble::f4jumble_inv(&x);
+            let mut m1 = x.clone();
+            let fm = f4jumble::f4jumble_mut(&mut m1);
+            let mut m2 = x.clone();
+            let bm = f4jumble::f4jumble_inv_mut(&mut m2);
+            match (fwd, bwd, fm, bm) {
+                (Ok(f), Ok(b), Ok(()), Ok(())) => {
+                    let inv = f4jumble::f4jumble_inv(&f).ok().as_deref() == Some(&x[..]) && f4jumble::f4jumble(&b).ok().as_deref() == Some(&x[..]);
+                    let len = f.len() == n && b.len() == n && m1.len() == n && m2.len() == n;
+                    let refeq = Some(&f) == ref_f4jumble(&x).as_ref() && Some(&b) == ref_f4jumble_inv(&x).as_ref() && m1 == f && m2 == b;
+                    (false, inv, len, refeq, false)
+                }
+                (Err(_), Err(_), Err(_), Err(_)) => (true, false, false, false, m1 == x && m2 == x),
+                // some entry points fail and others do not: neither "no error" nor a clean error
+                _ => (true, false, false, false, false),
+            }
+        });
+        let rec = match r {
+            Ok((err, inv, len, refeq, keep)) => json!({"op": "jumble", "n": n, "err": err, "inv": inv, "len": len, "ref": refeq, "keep": keep, "panic": false}),
+            Err(_) => json!({"op": "jumble", "n": n, "err": true, "inv": false, "len": false, "ref": false, "keep": false, "panic": true}),
+        };
+        w.emit(&rec);
+        n_rec += 1;
+    }
+    n_rec
+}
+
+// ------------------------------------------------------------------------------------------------
+// F. convert_if_network on parsed addresses
+
+fn conversions(vals: &[ValueStr], w: &mut NdjsonWriter) -> usize {
+    let mut n = 0;
+    for v in vals {
+        let p = parse(&v.string);
+        if p.out != "accept" {
+            continue; // already reported by its "rt" record
+        }
+        for want in NETS {
+            let r = cut(|| {
+                ZcashAddress::try_from_encoded(&v.string).ok().map(|a| match a.convert_if_network::<Obs>(net_type(want)) {
+                    Ok(o) => Some(o.kind == p.kind && o.net == want && o.data == p.data && o.ua.as_ref().map(ua_items) == p.items),
+                    Err(ConversionError::IncorrectNetwork { .. }) => None,
+                    Err(_) => Some(false),
+                })
+            });
+            // ok: converted / refused with IncorrectNetwork;  good: nothing else went wrong
+            let (ok, good) = match r {
+                Ok(Some(Some(true))) => (true, true),
+                Ok(Some(None)) => (false, true),
+                Ok(Some(Some(false))) => (true, false), // wrong value delivered / another error
+                Ok(None) => (false, false),             // does not parse the second time
+                Err(_) => (false, false),               // panic
+            };
+            w.emit(&json!({"op": "cin", "kind": p.kind, "net": p.net, "want": want, "ok": ok, "good": good}));
+            n += 1;
+        }
+    }
+    n
+}
 
 fn main() {
-    quiet_panics();
-    let mut rng = case_rng(1, "spike");
-    // 1. reference jumble vs crate
-    for n in [48usize, 49, 100, 127, 128, 129, 192, 193, 1000, 20000, 4194368] {
-        let m = rand_bytes(&mut rng, n);
-        let r = ref_f4jumble(&m).unwrap();
-        let c = f4jumble::f4jumble(&m).unwrap();
-        println!("len {n}: ref==crate {}  inv ok {}", r == c, ref_f4jumble_inv(&r).unwrap() == m);
+    let args: Vec<String> = std::env::args().collect();
+    if args.len() < 6 {
+        eprintln!("usage: c10_driver <out.ndjson> <n_values_per_net> <n_containers> <n_fuzz> <big: 0|1>");
+        std::process::exit(2);
     }
-    // 2. uppercase
-    let sap = bech_encode("bech32", "zs", &[7u8; 43], &mut rng);
-    println!("{sap} -> {:?}", ZcashAddress::try_from_encoded(&sap).is_ok());
-    let up = sap.to_uppercase();
-    println!("{up} -> {:?}", ZcashAddress::try_from_encoded(&up));
-    let tex = bech_encode("bech32m", "tex", &[7u8; 20], &mut rng).to_uppercase();
-    println!("{tex} -> {:?}", ZcashAddress::try_from_encoded(&tex));
-    let items = vec![RawItem { typecode: 2, data: vec![1; 43] }];
-    let raw = raw_encode(&items, &padding_for("u"));
-    let s = container_string("u", &raw, "bech32m", &mut rng).unwrap();
-    println!("{s} -> {:?}", ZcashAddress::try_from_encoded(&s).map(|a| observe(&a).kind));
-    println!("{} -> {:?}", s.to_uppercase(), ZcashAddress::try_from_encoded(&s.to_uppercase()));
-    println!("upper ua decode -> {:?}", unified::Address::decode(&s.to_uppercase()).is_ok());
-    // 3. big container
-    for n in [2_000_000usize, 2_621_400, 2_621_460, 2_621_470, 2_621_480, 3_000_000, 4_194_368 - 16 - 45 - 7, 4_194_368 - 16 - 45 - 6] {
-        let a = unified::Address::try_from_items(vec![
-            unified::Receiver::Sapling([1; 43]),
-            unified::Receiver::Unknown { typecode: 0xffff, data: vec![0u8; n] },
-        ])
-        .unwrap();
-        let r = guarded(|| a.encode(&NetworkType::Main));
-        match r {
-            Ok(s) => {
-                let back = guarded(|| unified::Address::decode(&s));
-                println!("big {n}: encoded {} chars, decode ok {:?}", s.len(), back.map(|b| b.map(|(_, v)| v == a)));
-            }
-            Err(p) => println!("big {n}: encode PANIC {}", &p[..p.len().min(120)]),
-        }
-        // own string
-        let items = vec![RawItem { typecode: 2, data: vec![1; 43] }, RawItem { typecode: 0xffff, data: vec![0u8; n] }];
-        let raw = raw_encode(&items, &padding_for("u"));
-        match container_string("u", &raw, "bech32m", &mut rng) {
-            Some(s) => println!("   own string {} chars raw {} -> decode {:?}", s.len(), raw.len(), guarded(|| unified::Address::decode(&s).map(|_| ()))),
-            None => println!("   raw {} outside jumble domain", raw.len()),
-        }
-    }
+    let n_values: usize = args[2].parse().expect("n_values");
+    let n_containers: usize = args[3].parse().expect("n_containers");
+    let n_fuzz: usize = args[4].parse().expect("n_fuzz");
+    let big = args[5] == "1";
+    let seed = seed_from_env();
+    harness_hook();
+    let mut w = NdjsonWriter::create(&args[1]);
+    let mut rng = case_rng(seed, "driver");
+    let vals = values(seed, n_values, &mut w, &mut rng);
+    let n_rt = w.1;
+    known_class_strings(&vals, &mut w, &mut rng);
+    let n_str = w.1 - n_rt;
+    let (n_fz, fz_acc) = fuzz(&vals, n_fuzz, &mut w, &mut rng);
+    let (n_uc, uc_acc) = containers(n_containers, big, &mut w, &mut rng);
+    let n_j = jumbles(big, &mut w, &mut rng);
+    let n_cin = conversions(&vals, &mut w);
+    let n = w.1;
+    w.emit(&json!({"op": "end", "n": n}));
+    w.finish();
+    println!("{}", json!({"records": n, "rt": n_rt, "str": n_str, "fuzz": n_fz, "fuzz_accepted": fz_acc, "uc": n_uc, "uc_accepted": uc_acc,
+                          "jumble": n_j, "cin": n_cin}));
 }
